@@ -1838,6 +1838,13 @@ func (s *BgpServer) handleFSMMessage(peer *peer, e *fsmMsg) {
 		drainChannel(peer.fsm.outgoingCh.Out())
 
 		if nextState == bgp.BGP_FSM_ESTABLISHED {
+			// Publish the state before the initial table transfer is
+			// computed (the FSM stores it only after this callback): the
+			// fan-out of a route that changes meanwhile skips peers that
+			// are not ESTABLISHED, and such a route would never reach this
+			// peer. What is queued from here on is sent when the session's
+			// sender starts, in order with the initial table.
+			peer.fsm.state.Store(nextState)
 			conf := peer.fsm.pConf.ReadOnly()
 			peerInfo := table.NewPeerInfo(peer.fsm.gConf, conf,
 				conf.State.PeerAs, conf.Config.LocalAs,
